@@ -6,38 +6,64 @@ from pyvc.verify import Engine
 from pyvc.core import Sorts
 from pyvc.run import load_registry
 src = Source()
-key, pat = sys.argv[1], sys.argv[2]
-eng = Engine(src, load_registry(), Sorts())
+key, pat, sc = sys.argv[1], sys.argv[2], sys.argv[3].split(',')
+eng = Engine(src, load_registry(sc), Sorts())
 obs = eng.verify(key)
-print(len(obs), eng.stats)
+n=0
 for ob in obs:
-    if pat in ob.name and ob.status is None:
-        for cfg in [dict(), {"smt.mbqi": False}, {"smt.mbqi": False, "smt.qi.eager_threshold": 100.0}]:
-            s = z3.Solver(); s.set("timeout", 10000)
-            for k,v in cfg.items(): s.set(k, v)
+    if ob.name.endswith(pat) and ob.status is None:
+        n+=1
+        s = z3.Solver(); s.set("timeout", 15000)
+        for h in ob.hyps: s.add(h)
+        s.add(z3.Not(ob.goal))
+        t=time.time(); r=s.check(); print(ob.name.split('/',1)[1], [p for p in ob.path][-5:], r, round(time.time()-t,2), len(ob.hyps),'hyps')
+        if '--goal' in sys.argv: print('GOAL', str(ob.goal)[:1500])
+        if '--min' in sys.argv and r != z3.unsat:
+            # which quantified hyps are needed? try dropping ghost-map invariants
+            pass
+if '--cases' in sys.argv:
+    ob=[o for o in obs if o.name.endswith(pat) and o.status is None][-1]
+    g=ob.goal
+    assert z3.is_quantifier(g)
+    body=g.body(); 
+    nvar=[v for k,v in eng.entry_state.frames[0].items()]  # unused
+    # find the 'n' local: guess name n!21-like from goal text
+    import re
+    names=set(re.findall(r'n!\d+', str(g)))
+    print('n candidates', names)
+    for nm in names:
+        nz=z3.Int(nm)
+        for label, jv in (('j=n', nz), ('j=n+1', nz+1), ('j=n-1', nz-1), ('j=0',z3.IntVal(0))):
+            inst=z3.substitute_vars(body, jv)
+            s=z3.Solver(); s.set('timeout',8000)
             for h in ob.hyps: s.add(h)
-            s.add(z3.Not(ob.goal))
-            t=time.time(); r=s.check(); print(ob.name, cfg, r, round(time.time()-t,2), s.reason_unknown() if r==z3.unknown else '')
-        print(len(ob.hyps),'hyps'); print('GOAL', ob.goal)
-        if '--dump' in sys.argv: open('/tmp/ob.smt2','w').write(s.to_smt2())
-        if '--all' not in sys.argv: break
-if '--slice' in sys.argv:
-    ob=[o for o in obs if pat in o.name][0]
-    H=ob.hyps
-    for start in [0, 50, 100, 120, 140, 160, 180]:
-        s = z3.Solver(); s.set("timeout", 5000)
-        for h in H[start:]: s.add(h)
-        s.add(z3.Not(ob.goal)); t=time.time(); r=s.check(); print('from', start, r, round(time.time()-t,2))
-    # drop quantified hyps one group at a time
-    qs=[i for i,h in enumerate(H) if z3.is_quantifier(h)]
-    print(len(qs),'quantified hyps')
-if '--text' in sys.argv:
-    from pyvc import solve
-    ob=[o for o in obs if pat in o.name and o.status is None][0]
-    text = solve.to_smt2(ob)
-    for i in range(3):
-        t=time.time(); print('pool_check', solve._pool_check((text, 10000, i, False))[:3], round(time.time()-t,2))
-    s=z3.Solver(); s.set('timeout',10000); s.from_string(text); t=time.time(); print('from_string', s.check(), round(time.time()-t,2))
-    s=z3.SolverFor('ALL') if False else z3.Solver(); s.set('timeout',10000)
-    for a in z3.parse_smt2_string(text): s.add(a)
-    t=time.time(); print('parse+add', s.check(), round(time.time()-t,2))
+            s.add(z3.Not(inst)); t=time.time(); print(nm, label, s.check(), round(time.time()-t,2))
+if '--show' in sys.argv:
+    ob=[o for o in obs if o.name.endswith(pat) and o.status is None][-1]
+    import re
+    nm=sorted(set(re.findall(r'n!\d+', str(ob.goal))))[0]
+    inst=z3.simplify(z3.substitute_vars(ob.goal.body(), z3.Int(nm)+1))
+    print(str(inst)[:3000])
+    for h in ob.hyps[-28:]:
+        print('H:', str(h)[:300].replace('\n',' '))
+if '--cfg' in sys.argv:
+    cands=[o for o in obs if o.name.endswith(pat) and o.status is None]
+    ob=cands[2]
+    for cfg in [{"smt.arith.solver":2},{"smt.arith.solver":6},{"smt.mbqi":False},{"smt.case_split":3},{"smt.qi.eager_threshold":50.0},{"smt.relevancy":0}]:
+        s = z3.Solver(); s.set("timeout", 20000)
+        for k,v in cfg.items(): s.set(k,v)
+        for h in ob.hyps: s.add(h)
+        s.add(z3.Not(ob.goal)); t=time.time(); print(cfg, s.check(), round(time.time()-t,2))
+    t=time.time(); tac=z3.Then('simplify','propagate-values','solve-eqs','smt'); sv=tac.solver(); sv.set("timeout",20000)
+    for h in ob.hyps: sv.add(h)
+    sv.add(z3.Not(ob.goal)); print('tactic', sv.check(), round(time.time()-t,2))
+if '--portfolio' in sys.argv:
+    cands=[o for o in obs if o.name.endswith(pat) and o.status is None]
+    for idx, ob in enumerate(cands):
+        res=[]
+        for cfg in [{}, {"smt.arith.solver":6}, {"smt.arith.solver":6,"random_seed":7}, {"smt.arith.solver":2,"random_seed":3}, {"smt.arith.solver":6, "smt.arith.nl": False}]:
+            s = z3.Solver(); s.set("timeout", 20000)
+            for k,v in cfg.items(): s.set(k,v)
+            for h in ob.hyps: s.add(h)
+            s.add(z3.Not(ob.goal)); t=time.time(); r=s.check(); res.append((str(r), round(time.time()-t,1)))
+        print(idx, [p for p in ob.path][-3:], res)
